@@ -136,6 +136,9 @@ func (f *DocumentTitleMatch) processPotentialTitle(title string) {
 		return
 	}
 
+	// The title itself is always a potential title.
+	f.potentialTitles[title] = struct{}{}
+
 	for _, rx := range rxDtmLongestPartPatterns {
 		if p := f.getLongestPart(title, rx); p != "" {
 			f.potentialTitles[p] = struct{}{}
